@@ -18,8 +18,11 @@ import (
 )
 
 const (
-	DefaultConcurrentChecks        = 5
-	DefaultHealthCheckInterval     = 30 * time.Second
+	DefaultConcurrentChecks    = 5
+	DefaultHealthCheckInterval = 30 * time.Second
+	// how often the scheduler looks for endpoints whose next check is due: an endpoint's own
+	// check_interval (and its backoff) decides when it is probed, this only bounds the lateness
+	healthSchedulerTick            = 1 * time.Second
 	LogThrottleInterval            = 2 * time.Minute
 	DefaultRecoveryCallbackTimeout = 10 * time.Second
 )
@@ -91,7 +94,7 @@ func (c *HTTPHealthChecker) StartChecking(ctx context.Context) error {
 
 	c.isRunning.Store(true)
 
-	c.ticker = time.NewTicker(DefaultHealthCheckInterval)
+	c.ticker = time.NewTicker(healthSchedulerTick)
 	go c.healthCheckLoop(ctx)
 
 	return nil
